@@ -42,6 +42,7 @@ type Op struct {
 	Target   int    `json:"target"` // index into the flattened object list (modulo)
 	DelayUS  int    `json:"delay_us"`
 	CancelUS int    `json:"cancel_us,omitempty"` // cancel: when the context is cancelled
+	Pad      int    `json:"pad,omitempty"`       // the argument is padded to this many bytes (frames larger than common buffers)
 }
 
 // Case is one run.
@@ -50,6 +51,9 @@ type Case struct {
 	Sessions [][][]Op `json:"sessions"` // session -> goroutine -> ops
 	RawTypes []uint8  `json:"raw_types"`
 	Procs    int      `json:"procs,omitempty"`
+	// RemoveUnderLoad: at the end an added object is terminated while it is
+	// busy and has calls queued (see checkCase).
+	RemoveUnderLoad bool `json:"remove_under_load,omitempty"`
 }
 
 func genCase(t *rapid.T) Case {
@@ -71,6 +75,9 @@ func genCase(t *rapid.T) Case {
 					Target:  rapid.IntRange(0, 8).Draw(t, "target"),
 					DelayUS: rapid.SampledFrom([]int{0, 0, 20, 100, 300}).Draw(t, "delay"),
 				}
+				if rapid.IntRange(0, 5).Draw(t, "padded") == 0 {
+					op.Pad = rapid.SampledFrom([]int{2100, 4100, 9000, 70000}).Draw(t, "pad")
+				}
 				if op.Kind == "cancel" {
 					op.DelayUS = rapid.SampledFrom([]int{100, 300, 1000}).Draw(t, "cdelay")
 					op.CancelUS = rapid.SampledFrom([]int{0, 50, 200, 2000}).Draw(t, "cancelat")
@@ -81,6 +88,7 @@ func genCase(t *rapid.T) Case {
 		}
 		c.Sessions = append(c.Sessions, gs)
 	}
+	c.RemoveUnderLoad = rapid.Bool().Draw(t, "removeunderload")
 	c.RawTypes = []uint8{netkit.Reply, netkit.Error, netkit.Event, netkit.Capability, netkit.Cancel, netkit.Cancelled}
 	return c
 }
@@ -167,7 +175,11 @@ func checkCase(c Case) (verr error) {
 				for oi, op := range ops {
 					ti := op.Target % len(targets)
 					tg := targets[ti]
-					tag := fmt.Sprintf("s%dg%dn%d~%d", si, gi, oi, op.DelayUS)
+					pad := ""
+					if op.Pad > 0 {
+						pad = "_" + strings.Repeat("p", op.Pad)
+					}
+					tag := fmt.Sprintf("s%dg%dn%d%s~%d", si, gi, oi, pad, op.DelayUS)
 					rec := &callRec{tag: tag, kind: op.Kind, session: si}
 					recsMu.Lock()
 					recs = append(recs, rec)
@@ -338,6 +350,68 @@ func checkCase(c Case) (verr error) {
 		if tag, ok := postIDs.Load(f.ID); ok {
 			return vt.Violationf("C04:post-answered", "post %v received a response frame %v", tag, f)
 		}
+	}
+	// removal under load: an added object is kept busy by a slow call, calls
+	// queue up behind it, its own terminate request follows and more calls
+	// after that, all on the raw connection without waiting. Whatever the
+	// object's fate, every one of these calls gets exactly one answer (a reply
+	// or an error) within the bound.
+	for _, tg := range targets {
+		if tg.objectID == 1 || !c.RemoveUnderLoad {
+			continue
+		}
+		type sent struct {
+			conn *netkit.RawClient
+			from int
+			id   uint32
+			what string
+		}
+		var calls []sent
+		send := func(conn *netkit.RawClient, action uint32, payload []byte, what string) {
+			id := conn.NextID()
+			calls = append(calls, sent{conn, len(conn.Frames()), id, what})
+			conn.Send(netkit.Frame{Type: netkit.Call, ID: id, Service: tg.svcID, Object: tg.objectID, Action: action, Payload: payload})
+		}
+		// three more connections: one connection alone cannot keep more than
+		// about ten messages waiting (the server sheds the rest), and the point
+		// is to have senders waiting for room in the object's mailbox at the
+		// moment it is removed
+		var extra []*netkit.RawClient
+		for k := 0; k < 3; k++ {
+			x, err := netkit.Dial(env.Addr)
+			if err != nil || !x.Authenticate("u", "t", bound) {
+				return vt.Violationf("C04:setup", "raw client: %v", err)
+			}
+			defer x.Close()
+			extra = append(extra, x)
+		}
+		send(raw, 100, netkit.StringPayload("busy~4000"), "slow call")
+		send(raw, 100, netkit.StringPayload("queued"), "call queued behind the slow one")
+		send(raw, 3, binary.LittleEndian.AppendUint32(nil, tg.objectID), "terminate")
+		for k := 0; k < 6; k++ {
+			for xi, x := range extra {
+				send(x, 100, netkit.StringPayload(fmt.Sprintf("late%d-%d", xi, k)), "call sent after terminate")
+			}
+		}
+		for _, cl := range calls {
+			if _, _, ok := cl.conn.WaitFrame(cl.from, func(f netkit.Frame) bool { return f.ID == cl.id && (f.Type == netkit.Reply || f.Type == netkit.Error) }, bound); !ok {
+				return vt.Violationf("C04:no-outcome:removal-under-load", "%s (id %d) to object %d of service %d, which was terminated while busy, got no answer within %v", cl.what, cl.id, tg.objectID, tg.svcID, bound)
+			}
+		}
+		time.Sleep(time.Millisecond)
+		for _, cl := range calls {
+			n := 0
+			for _, f := range cl.conn.Frames()[cl.from:] {
+				if f.ID == cl.id && (f.Type == netkit.Reply || f.Type == netkit.Error) {
+					n++
+				}
+			}
+			if n != 1 {
+				return vt.Violationf("C04:answer-count:removal-under-load", "%s (id %d) received %d answers", cl.what, cl.id, n)
+			}
+		}
+		vt.Label("removal-under-load")
+		break // one object per run
 	}
 	// overlap: two calls of one session in flight at the same time
 	overlap := false
